@@ -8,6 +8,7 @@
 //   hostile   structure-aware hostile streams (PRNG-built protocol lines written into the case as `raw` ops, mutations, cut)
 //   fidelity  well-formed requests as sent (semantic description + encoding choices -> reference writer), 1-3 per stream,
 //             the complete stream and every cut offset
+//   fragments pipelined keep-alive streams as in fidelity, delivered to the server in 2..6 separate bursts by a feeder
 //   badline   well-formed request with one colon-less line in the header block: dropped, or handed over intact
 //   targets   exhaustive request targets over the dot/slash/percent alphabets + random longer ones
 //   files     static-file serving under a web root with Range / If-Modified-Since
@@ -144,6 +145,9 @@ static bool reserved_name(const std::string& lower)
 struct Built {
 	c09::Opts o;
 	long long cut = -1; // -1 none, -2 sweep, >= 0 offset
+	bool frag = false;  // fragmented delivery of the complete stream
+	int frag_pause_us = 1000;
+	std::vector<long long> frag_at; // piece boundaries (taken modulo the stream length)
 	std::string rawstream;
 	bool any_raw = false;
 	std::vector<refhttp::Request> reqs;
@@ -159,6 +163,13 @@ static void build(const vf::Case& c, Built& b)
 			b.o.respmode = (int)(((op.i(1) % 6) + 6) % 6);
 			b.cut = op.i(2, -1);
 			b.o.cors = op.i(3) != 0;
+		}
+		else if (op.name == "frag") {
+			b.frag = true;
+			long long p = op.i(0, 1000);
+			b.frag_pause_us = (int)(p < 0 ? 0 : p > 20000 ? 20000 : p);
+			for (size_t i = 1; i < op.a.size() && i <= 5; i++)
+				b.frag_at.push_back(op.a[i]);
 		}
 		else if (op.name == "raw") {
 			b.rawstream += op.str(0);
@@ -326,13 +337,46 @@ static size_t expected_until_close(const std::vector<refhttp::Request>& reqs, si
 }
 
 // stream = first `c` bytes of the full stream (c == stream.size(): complete)
-static void check_fidelity_at(const Built& b, size_t c, int closemode)
+static std::vector<size_t> frag_offsets(const Built& b)
+{
+	std::vector<size_t> at;
+	size_t total = b.stream.size();
+	for (long long v : b.frag_at) {
+		size_t c = (size_t)(((v % (long long)(total + 1)) + (long long)(total + 1)) % (long long)(total + 1));
+		if (c > 0 && c < total)
+			at.push_back(c);
+	}
+	std::sort(at.begin(), at.end());
+	at.erase(std::unique(at.begin(), at.end()), at.end());
+	return at;
+}
+
+static void check_fidelity_at(const Built& b, size_t c, int closemode, const std::vector<size_t>* frag = 0)
 {
 	c09::Opts o = b.o;
 	o.closemode = closemode;
 	std::string st = b.stream.substr(0, c);
-	c09::Result r = c09::run_stream(st, o);
-	std::string what = c == b.stream.size() ? std::string("(complete stream") : "(stream cut at byte " + std::to_string(c) + " of " + std::to_string(b.stream.size());
+	c09::Result r;
+	std::string what;
+	if (frag) {
+		std::vector<std::string> pieces;
+		size_t prev = 0;
+		what = "(complete stream delivered in " + std::to_string(frag->size() + 1) + " bursts split at";
+		for (size_t at : *frag) {
+			pieces.push_back(st.substr(prev, at - prev));
+			prev = at;
+			what += " " + std::to_string(at);
+		}
+		pieces.push_back(st.substr(prev));
+		r = c09::run_stream_pieces(pieces, o, b.frag_pause_us);
+		what += " of " + std::to_string(st.size()) + "; " + std::to_string(r.bursts_separate) + " burst(s) consumed before the next was sent";
+		vf::stats().cls("fragments.run.bursts_sent", (uint64_t)r.bursts);
+		vf::stats().cls("fragments.run.bursts_consumed_before_next", (uint64_t)r.bursts_separate);
+	}
+	else {
+		r = c09::run_stream(st, o);
+		what = c == b.stream.size() ? std::string("(complete stream") : "(stream cut at byte " + std::to_string(c) + " of " + std::to_string(b.stream.size());
+	}
 	what += closemode ? ", peer closed completely)" : ", peer half-closed)";
 	universal(r, st, what);
 	size_t n = b.reqs.size(), k = 0;
@@ -357,6 +401,11 @@ static void check_fidelity_at(const Built& b, size_t c, int closemode)
 static void run_fidelity(const Built& b, bool thorough)
 {
 	size_t total = b.stream.size();
+	if (b.frag) {
+		std::vector<size_t> at = frag_offsets(b);
+		check_fidelity_at(b, total, 0, &at);
+		return;
+	}
 	if (b.cut >= 0) {
 		check_fidelity_at(b, (size_t)b.cut % (total + 1), b.o.closemode);
 		return;
@@ -600,7 +649,8 @@ static std::string r_str(refhttp::Rng& r, int kind, unsigned maxlen)
 	return s;
 }
 
-static vf::Case make_fidelity(uint64_t seed, int nreq, int maxh, int maxq, int bodyclass, bool badline)
+// pipelined: every request keeps the connection open (HTTP/1.1, no "close") and most carry a Content-Length body
+static vf::Case make_fidelity(uint64_t seed, int nreq, int maxh, int maxq, int bodyclass, bool badline, bool pipelined = false)
 {
 	refhttp::Rng r(seed);
 	static const char* methods[] = {"GET", "POST", "PUT", "DELETE", "PATCH", "HEAD", "GET", "POST", "OPTIONS", "PROPFIND", "M-SEARCH", "x", "Z9!", "REPORT"};
@@ -610,7 +660,7 @@ static vf::Case make_fidelity(uint64_t seed, int nreq, int maxh, int maxq, int b
 	static const char* bads[] = {"garbage", "X-Foo bar", "no colon here", "GET / HTTP/1.1", "="};
 	vf::Case c;
 	unsigned rm = r.below(6);
-	c.ops.push_back(cfg(0, rm == 0 ? 2 : rm == 1 ? 4 : 0, badline ? -1 : -2, r.below(10) == 0));
+	c.ops.push_back(cfg(0, rm == 0 ? 2 : rm == 1 ? 4 : 0, badline || pipelined ? -1 : -2, r.below(10) == 0));
 	for (int i = 0; i < nreq; i++) {
 		std::string path;
 		unsigned ns = r.below(5);
@@ -620,7 +670,7 @@ static vf::Case make_fidelity(uint64_t seed, int nreq, int maxh, int maxq, int b
 			path += "/";
 		unsigned fm = r.below(12);
 		unsigned enc = r.below(3);
-		c.ops.push_back(vf::Op("req", {r.below(10) == 0, enc == 1 ? 0 : (long long)(r.next() >> 33), fm < 9 ? 0 : fm - 8}, {methods[r.below(14)], path, fm >= 9 ? "frag" + r_str(r, 1, 3) : std::string()}));
+		c.ops.push_back(vf::Op("req", {r.below(10) == 0 && !pipelined, enc == 1 ? 0 : (long long)(r.next() >> 33), fm < 9 ? 0 : fm - 8}, {methods[r.below(14)], path, fm >= 9 ? "frag" + r_str(r, 1, 3) : std::string()}));
 		unsigned nq = r.below((unsigned)maxq + 1);
 		for (unsigned k = 0; k < nq; k++)
 			c.ops.push_back(vf::Op("q", {}, {r_str(r, 1, 5) + (char)('a' + r.below(26)), r_str(r, 1, 10)}));
@@ -634,6 +684,8 @@ static vf::Case make_fidelity(uint64_t seed, int nreq, int maxh, int maxq, int b
 			c.ops.push_back(o);
 		}
 		unsigned bk = r.below(6); // 0,1: none  2,3: Content-Length  4,5: chunked
+		if (pipelined)
+			bk = bk == 0 ? 0 : bk == 5 ? 4 + r.below(2) : 2 + r.below(2);
 		if (bk >= 2) {
 			static const int edge[] = {15999, 16000, 16001, 32000, 32001};
 			unsigned bc = bodyclass <= 0 ? 0 : r.below((unsigned)bodyclass + 1);
@@ -645,7 +697,7 @@ static vf::Case make_fidelity(uint64_t seed, int nreq, int maxh, int maxq, int b
 		}
 		unsigned cn = r.below(8);
 		if (cn >= 4)
-			c.ops.push_back(vf::Op("conn", {cn == 4 ? 1 : cn == 5 ? 3 : cn == 6 ? 1 : 2}));
+			c.ops.push_back(vf::Op("conn", {cn == 4 ? 1 : cn == 5 ? 3 : cn == 6 || pipelined ? 1 : 2}));
 		if (r.below(6) == 0)
 			c.ops.push_back(vf::Op("expect"));
 		if (badline && i + 1 == nreq)
@@ -659,6 +711,88 @@ static rc::Gen<vf::Case> g_fidelity(bool badline)
 	using namespace rc;
 	return gen::map(gen::tuple(gen::arbitrary<uint64_t>(), vf::irange<int>(1, 3), vf::irange<int>(0, 5), vf::irange<int>(0, 4), vf::irange<int>(0, 7)),
 	                [=](const std::tuple<uint64_t, int, int, int, int>& t) { return make_fidelity(std::get<0>(t), std::get<1>(t), std::get<2>(t), std::get<3>(t), std::get<4>(t), badline); });
+}
+
+// fragmented delivery: a pipelined keep-alive stream + piece boundaries chosen by kind (inside a body that is followed by
+// another request, inside any body, inside a head, exactly at a message boundary, anywhere)
+static vf::Case make_fragments(uint64_t seed, int nreq, int ncuts, int maxh, int bodyclass)
+{
+	vf::Case c = make_fidelity(seed, nreq, maxh, 2, bodyclass, false, true);
+	Built b;
+	build(c, b);
+	refhttp::Rng r(seed ^ 0xf7a9c0de);
+	size_t total = b.stream.size(), n = b.wires.size();
+	vf::Op f("frag", {1000 + (long long)r.below(2001)});
+	for (int i = 0; i < ncuts && total > 1; i++) {
+		unsigned kind = r.below(20);
+		size_t at = 1 + r.below((unsigned)(total - 1));
+		std::vector<size_t> cand;
+		if (kind < 8) { // inside a body that has a successor on the wire
+			for (size_t k = 0; k + 1 < n; k++)
+				if (b.wires[k].end - b.wires[k].head_end >= 2)
+					cand.push_back(k);
+		}
+		else if (kind < 11) {
+			for (size_t k = 0; k < n; k++)
+				if (b.wires[k].end - b.wires[k].head_end >= 2)
+					cand.push_back(k);
+		}
+		if (!cand.empty()) {
+			const refhttp::Wire& w = b.wires[cand[r.below((unsigned)cand.size())]];
+			size_t bl = w.end - w.head_end;
+			unsigned e = r.below(4); // near the start, near the end, anywhere
+			at = w.head_end + 1 + (e == 0 ? r.below((unsigned)std::min<size_t>(bl - 1, 3)) : e == 1 ? (bl - 2 - r.below((unsigned)std::min<size_t>(bl - 1, 3))) : r.below((unsigned)(bl - 1)));
+		}
+		else if (kind >= 11 && kind < 15) { // inside a head
+			const refhttp::Wire& w = b.wires[r.below((unsigned)n)];
+			at = w.start + 1 + r.below((unsigned)(w.head_end - w.start - 1));
+		}
+		else if (kind >= 15 && kind < 18) { // message boundary or end of a head
+			const refhttp::Wire& w = b.wires[r.below((unsigned)n)];
+			at = r.below(3) ? w.end : w.head_end;
+		}
+		f.a.push_back((long long)at);
+	}
+	c.ops.push_back(f);
+	return c;
+}
+
+static void classify_fragments(const vf::Case& c)
+{
+	Built b;
+	build(c, b);
+	std::vector<size_t> at = frag_offsets(b);
+	vf::Stats& st = vf::stats();
+	if (!at.empty())
+		st.nt(vf::fnv(vf::serialize(c)));
+	st.cls("fragments.bursts_per_stream=" + std::to_string(at.size() + 1));
+	st.cls("fragments.requests_per_stream=" + std::to_string(b.reqs.size()));
+	bool tail = false;
+	for (size_t i = 0; i < at.size(); i++) {
+		size_t x = at[i], next = i + 1 < at.size() ? at[i + 1] : b.stream.size();
+		bool boundary = false, head = false;
+		for (size_t k = 0; k < b.wires.size(); k++) {
+			const refhttp::Wire& w = b.wires[k];
+			if (x == w.end || x == w.start)
+				boundary = true;
+			else if (x > w.start && x <= w.head_end)
+				head = true;
+			else if (x > w.head_end && x < w.end) {
+				st.cls(b.reqs[k].body_kind == 1 ? "fragments.cut.in_content_length_body" : "fragments.cut.in_chunked_body");
+				// the rest of this body and the beginning of the next request travel in the same burst
+				if (b.reqs[k].body_kind == 1 && k + 1 < b.wires.size() && next > w.end)
+					tail = true;
+			}
+		}
+		if (boundary)
+			st.cls("fragments.cut.at_message_boundary");
+		else if (head)
+			st.cls("fragments.cut.in_head");
+	}
+	if (tail)
+		st.cls("fragments.pipelined_body_tail_and_next_request_in_one_burst");
+	if (tail && b.stream.size() < 300)
+		st.sample("fragmented stream, pieces at " + vf::serialize(vf::Case().add(c.ops.back())) + " of " + vf::show(b.stream, 300));
 }
 
 static void classify_fidelity(const vf::Case& c)
@@ -794,6 +928,14 @@ void vf_search(const vf::Args& a)
 	[&]() { vf::check_cases("fidelity", a.n(400, 3200) / a.workers, 60, g_fidelity(false), classify_fidelity); }();
 
 	lap("fidelity");
+	// ---- the same kind of streams delivered in 2..6 separate bursts (pipelined keep-alive requests)
+	[&]() {
+		auto g = gen::map(gen::tuple(gen::arbitrary<uint64_t>(), vf::irange<int>(2, 3), vf::irange<int>(1, 5), vf::irange<int>(0, 3), vf::irange<int>(0, 5)), [](const std::tuple<uint64_t, int, int, int, int>& t) {
+			return make_fragments(std::get<0>(t), std::get<1>(t), std::get<2>(t), std::get<3>(t), std::get<4>(t));
+		});
+		vf::check_cases("fragments", a.n(1200, 16000) / a.workers, 60, g, classify_fragments);
+	}();
+	lap("fragments");
 	// ---- malformed header line
 	[&]() {
 		vf::check_cases("badline", a.n(2000, 60000) / a.workers, 60, g_fidelity(true), [](const vf::Case& c) {
